@@ -33,6 +33,17 @@ func (my *delayedQueue) goLoop(later loom.Later) {
 	for {
 		select {
 		case <-ticker.C:
+			// 先把已经送达的task全部收进来: ticker与tasks同时就绪时select是随机的, 如果先处理了tick,
+			// 那些在这一tick之前就已经到期的task会被推迟整整一个tick
+			for drained := false; !drained; {
+				select {
+				case task := <-my.tasks:
+					pq.Push(task)
+				default:
+					drained = true
+				}
+			}
+
 			var now = time.Now()
 			var timestamp = now.UnixNano()
 			for pq.Len() > 0 {
